@@ -157,7 +157,7 @@ func genSCTList(c *vh.Ctx) []byte {
 			if c.Intn(4) == 0 && len(sct) > 0 {
 				sct = sct[:c.Intn(len(sct))]
 			}
-			if c.Intn(6) == 0 {
+			if c.Intn(6) == 0 && len(sct) > 0 {
 				sct[0] = 1
 			}
 		}
